@@ -40,7 +40,8 @@ type Val struct {
 	T   string // SMT term
 	Typ types.Type
 	Tup []Val // tuple components
-	Loc *Loc  // interior pointer (FieldAddr / IndexAddr result)
+	Loc *Loc  // interior pointer (FieldAddr / IndexAddr result), or the location an lvalue was read from
+	Addr bool // Loc designates the pointee: this value IS the address of Loc (not a value read from it)
 	Fn  *ssa.Function
 	Clo *ssa.MakeClosure
 	FieldSrc *types.Var // value was loaded from this struct field (for field contracts)
@@ -99,6 +100,7 @@ type Unit struct {
 	overflow bool
 	bv      bool
 	sweep   bool // schematic mode: inline helpers with loops, abstract what is unknown
+	addrs   map[string]string
 	axHeap  *Heap
 	modelTerms []string
 }
@@ -441,4 +443,20 @@ func posStr(fset *token.FileSet, p token.Pos) string {
 		f = f[i+1:]
 	}
 	return fmt.Sprintf("%s:%d", f, ps.Line)
+}
+
+
+// addrOf gives an interior pointer a symbolic non-nil address (one constant per location).
+func (u *Unit) addrOf(l *Loc) string {
+	key := fmt.Sprintf("%s|%s|%s|%v", l.Arr, l.Key, l.Key2, l.Path)
+	if u.addrs == nil {
+		u.addrs = map[string]string{}
+	}
+	if a, ok := u.addrs[key]; ok {
+		return a
+	}
+	a := u.D.Const(fmt.Sprintf("addr%d", len(u.addrs)), "Int")
+	u.D.axiom("(> " + a + " 0)")
+	u.addrs[key] = a
+	return a
 }
